@@ -94,7 +94,11 @@ PROPS["C17"] = dict(
 PROPS["C13"] = dict(
     level="model_checking",
     stages=[dict(name="enum", module="MC_C13", cfg={"quick": "MC_C13_quick.cfg", "thorough": "MC_C13_thorough.cfg"},
-                 timeout={"quick": 300, "thorough": 1500})],
+                 timeout={"quick": 300, "thorough": 1500}),
+            # a dash works at every template size: fully dashed templates whose token count sweeps through every
+            # capacity step of the pooled token buffers, below and above the large-template threshold (MC_C14's sweeps)
+            dict(name="sweep", module="MC_C14", cfg={"quick": "MC_C13_sweep_quick.cfg", "thorough": "MC_C13_sweep_thorough.cfg"},
+                 timeout={"quick": 300, "thorough": 900})],
     nontrivial=lambda r: "ndash:0" not in (r.get("tags") or []),
     rule="corpus of templates covering every tag kind x set D of dashed delimiter sides (all subsets for small templates, "
          "singletons/pairs/all/all-but-one otherwise) x 6 whitespace styles of the neighbouring text; two real renders per "
@@ -157,12 +161,29 @@ PROPS["C19"] = dict(
 import c01
 PROPS["C01"] = dict(run=c01.run, replay=c01.replay)
 
+def _c15_fs(lines, seed, tier):
+    """Adds, for a sample of the emitted histories, a variant in which loader 2 is a real FileSystemLoader on a scratch
+    directory (put / delete write and remove files, time stamps become modification times): the expected observations
+    are the same -- the specification does not care what kind of loader serves a name."""
+    import json, random
+    rnd = random.Random(seed)
+    out = list(lines)
+    k = len(lines) // (4 if tier == "quick" else 2)
+    for l in rnd.sample(lines, min(len(lines), max(k, 200))):
+        c = json.loads(l)
+        c["fs"] = True
+        c["key"] = c["key"] + "+fs"
+        c["tags"] = list(c.get("tags") or []) + ["fsloader"]
+        out.append(json.dumps(c) + "\n")
+    return out
+
+
 PROPS["C15"] = dict(
     level="model_checking",
-    stages=[dict(name="enum", module="CacheLoaders", cmd="cachehist",
+    stages=[dict(name="enum", module="CacheLoaders", cmd="cachehist", transform=_c15_fs,
                  cfg={"quick": "MC_C15_mid.cfg", "thorough": "MC_C15_mid.cfg"}, timeout={"quick": 300, "thorough": 900}),
             dict(name="walks", module="CacheLoaders", cmd="cachehist", cfg={"quick": "MC_C15_sim.cfg", "thorough": "MC_C15_sim.cfg"},
-                 simulate={"quick": 3000, "thorough": 60000}, depth=16, workers=1, timeout={"quick": 300, "thorough": 1500}),
+                 simulate={"quick": 3000, "thorough": 60000}, depth=16, workers=1, timeout={"quick": 300, "thorough": 1500}, transform=_c15_fs),
             dict(name="random", cfg={}, c2s=dict(gen="cachehist", cmd="cachehist", n={"quick": 300, "thorough": 4000}, len=80,
                                                  trace=dict(module="Trace_C15", cfg="Trace_C15.cfg")))],
     nontrivial=lambda r: True,
